@@ -92,6 +92,7 @@ def run(ctx: Ctx):
                         continue
                 out.append((kind, node, param, cenv))
             return out
+        side_condition_broken = None
         for kind, node, vname_here, cenv in uses_deep(fn, pval):
             if kind == "compare":
                 for op_node in [node.left] + node.comparators:
@@ -110,14 +111,30 @@ def run(ctx: Ctx):
             elif kind in ("isinstance", "format"):
                 pass
             else:
-                raise AnalysisError(f"{P_VALIDATORS}:{getattr(node, 'lineno', '?')}: `{pval}` is used outside "
-                                    "isinstance/comparison/format contexts; the partition argument does not apply")
-        ctx.floor(f"{vname}: constants compared with value", len(consts), 1)
+                # the side condition that lets one representative per cell decide ALL ints does not hold: the cells below
+                # (every constant the function mentions +-1, powers of two up to 2^63, 10^30) are still evaluated -- a wrong
+                # verdict on one of them is a violation; if none is found the property is undecided (analysis error)
+                side_condition_broken = (f"{P_VALIDATORS}:{getattr(node, 'lineno', '?')}: `{pval}` is used outside "
+                                         "isinstance/comparison/format contexts; the partition argument does not apply")
+                for sub in ast.walk(fn):
+                    if isinstance(sub, ast.Constant) and isinstance(sub.value, int) and not isinstance(sub.value, bool):
+                        consts.add(sub.value)
+                    elif isinstance(sub, ast.BinOp):
+                        try:
+                            cv = it.eval(sub, {})
+                            if isinstance(cv, int) and not isinstance(cv, bool):
+                                consts.add(cv)
+                        except (AnalysisError, Raised):
+                            pass
+        if side_condition_broken is None:
+            ctx.floor(f"{vname}: constants compared with value", len(consts), 1)
         # ---- representatives
         reps = set()
         for c in sorted(consts | {lo, hi, 0}):
             reps |= {c - 1, c, c + 1}
         reps |= {-(2 ** 63) - 1, -(2 ** 63), -(2 ** 32), 2 ** 32, 2 ** 63, 2 ** 63 + 1, 10 ** 30, -(10 ** 30)}
+        for e_ in (15, 16, 30, 31, 32, 33, 62, 63, 64):
+            reps |= {2 ** e_ - 1, 2 ** e_, 2 ** e_ + 1, -(2 ** e_) - 1, -(2 ** e_), -(2 ** e_) + 1, 3 * 2 ** e_, -3 * 2 ** e_}
         inst = Record("SomeClass", {})
         attr_variants = [Record("Attribute", {"name": "some_attr"}), "some_attr"]
         for v in sorted(reps):
@@ -165,6 +182,8 @@ def run(ctx: Ctx):
                 ctx.check(ok, "total-on-any-argument", f"{vname}:{label}:attr={'obj' if isinstance(av, Record) else 'str'}",
                           f"{vname}({v!r}) gives {got}; expected ValueError" +
                           (" or True" if label.startswith("bool") else ""), P_VALIDATORS, fn.lineno)
+        if side_condition_broken is not None:
+            raise AnalysisError(side_condition_broken)
         # exits are decided semantically above: every representative and every non-int argument ends in
         # `return True` or in ValueError (a syntactic "raise ValueError(...)" rule was dropped: it fired on a
         # behaviour-preserving refactoring that builds the exception in a helper)
@@ -208,6 +227,41 @@ def _entry_points_agree(ctx: Ctx):
     vtree = ast.parse(ctx.src.text(P_VALIDATORS))
     vit = Interp(vtree, name=P_VALIDATORS)
     n = 0
+    # a hook registered for `int` itself structures every integer-typed position (A1: single dispatch on the class): the
+    # value the constructor sees is what the hook returns, so for every int in the spec range it has to hand back that very
+    # int, and outside the range it may only raise or pass the value on unchanged (the validator rejects it then)
+    int_reg = h.class_hooks().get(("prim", "int"))
+    if int_reg is not None:
+        n += 1
+        it0 = Interp(name=h.rel, extra_globals={h.types_alias: ModuleRef("types", attrs={"validators": ModuleRef("validators", interp=vit)}),
+                                                "validators": ModuleRef("validators", interp=vit)})
+        # module-level names of the module the hook lives in (converters.py or _hooks.py)
+        for src_rel in (h.rel, "packages/python/lsprotocol/converters.py"):
+            try:
+                tree_ = ast.parse(ctx.src.text(src_rel))
+            except (SyntaxError, AnalysisError):
+                continue
+            for st_ in tree_.body:
+                if isinstance(st_, ast.FunctionDef):
+                    from ..microeval import Closure as _Cl
+                    it0.globals.setdefault(st_.name, _Cl(st_, None, it0))
+                elif isinstance(st_, ast.ImportFrom) and st_.module and st_.module.endswith("validators"):
+                    for a_ in st_.names:
+                        if a_.name in vit.globals:
+                            it0.globals.setdefault(a_.asname or a_.name, vit.globals[a_.name])
+        lo32, hi32 = -(2 ** 31), 2 ** 31 - 1
+        for v in (lo32, lo32 + 1, -1, 0, 1, hi32 - 1, hi32, lo32 - 1, hi32 + 1, 2 ** 32, -(2 ** 32), 2 ** 63):
+            try:
+                r = it0.call(int_reg.hook, [v, int], closure_env=getattr(int_reg.closure, "env", None) or {int_reg.conv_name: Record("Converter", {})})
+                got = ("return", r)
+            except Raised as e:
+                got = ("raise", e.exc_name)
+            inside = lo32 <= v <= hi32
+            ok = got == ("return", v) or (not inside and got[0] == "raise")
+            ctx.check(ok, "entry-points-agree", f"hook={int_reg.hook_name} type=int input={v}",
+                      f"the structure hook {int_reg.hook_name} registered for int gives {got} for {v}: the constructor "
+                      f"{'accepts' if inside else 'rejects'} {v}, the converter no longer does the same", h.rel, int_reg.lineno,
+                      sample={"hook": int_reg.hook_name, "input": v, "converter": str(got)})
     for key, reg in h.class_hooks().items():
         if key == NONE or key[0] in ("opaque", "prim"):
             continue
